@@ -32,6 +32,9 @@ PROP = {
   'theorems are statements about the other switch values (the tree before the fixes) and stay as documentation',
   'C16_steps: one parse_resp call is linear only through the nesting limit (2*(M+1)*(n+1), M = 128); re-parsing an '
   'incomplete buffer after every received byte is quadratic by design (C16_steps_reparse)',
+  'compressed SETCLUSTER: not re-modelled as a parser; the extractor pins that the textual-only parser '
+  '(NodeMap::parse_tagged_slot_range) validates nothing the serde form would skip, and both consumers of a range list '
+  '(RangeMap::from, SlotMapData::new) are proved bounded for arbitrary lists (C16_rangemap_cur, C16_slotmap_cur)',
   'stack depth: recursion height <= MAX_NESTING + 1 is proved; that this fits the 2 MiB worker stack is measured '
   '(the frame size is not modelled)',
   'runtime part (RSS, wall time, "other connections keep being served", allocator and tokio behaviour) is measured '
@@ -66,7 +69,9 @@ CHECK = {
          'at a time replaced by boundary numbers, names and addresses, each followed by CLUSTER NODES / SLOTS, UMCTL INFO / '
          'GETEPOCH / INFOREPL / INFOMGR and data commands on the same and on a second connection; routing keys with every '
          'brace pattern in every key-carrying command; CONFIG SET of every field of set_value (read from the source) x boundary '
-         'values followed by ordinary traffic on the same, an established and a fresh connection.',
+         'values followed by ordinary traffic on the same, an established and a fresh connection; negative bulk / array '
+         'lengths other than -1 at every position; every hostile slot-range shape on local / peer / tagged ranges both in the '
+         'textual and in a well-formed COMPRESS SETCLUSTER, each followed by a second SETCLUSTER from another connection.',
  'note': 'Trusted: Lean kernel; cost annotation of steps; child-process observer. Not covered: accept-loop fd '
          'exhaustion, gzip/zstd bombs, UMCTL admin commands as an attack surface (SHUTDOWN, CONFIG SET).',
 }
